@@ -29,10 +29,8 @@ func (msg *MsgSendToVestingAccount) Type() string {
 }
 
 func (msg *MsgSendToVestingAccount) GetSigners() []sdk.AccAddress {
-	owner, err := sdk.AccAddressFromBech32(msg.Owner)
-	if err != nil {
-		panic(err)
-	}
+	// no panic on a malformed address: x/authz and the ICA host ask a message for its signers before validating it
+	owner, _ := sdk.AccAddressFromBech32(msg.Owner)
 	return []sdk.AccAddress{owner}
 }
 
